@@ -1541,7 +1541,7 @@ type grGen struct {
 	nextID int
 
 	nets, buses, nodes, msgs, builders, attrs, types, units, sigs []int
-	ifaces                                                         []int
+	ifaces                                                        []int
 }
 
 func (g *grGen) emit(l string) string {
